@@ -8,7 +8,7 @@ REPO = "/repo"
 patches = sorted(glob.glob(os.path.join(HERE, "mutants", "*", "*.patch")) + glob.glob(os.path.join(HERE, "benign", "*.patch")))
 if len(sys.argv) > 1:
     patches = [p for p in patches if any(a in p for a in sys.argv[1:])]
-NW = 6
+NW = 4
 local = threading.local()
 counter = [0]
 lock = threading.Lock()
@@ -33,7 +33,11 @@ def run(p):
         if r.returncode != 0:
             return p, {"status": "patch-failed"}
         env = dict(os.environ, CARGO_TARGET_DIR=worker_dir(), CARGO_NET_OFFLINE="true")
-        r = subprocess.run(["cargo", "test", "--offline", "--workspace", "--no-fail-fast"], cwd=work, capture_output=True, text=True, env=env)
+        subprocess.run(["cargo", "test", "--offline", "--workspace", "--no-run"], cwd=work, capture_output=True, text=True, env=env)
+        r = subprocess.run(["timeout", "-k", "5", "90", "cargo", "test", "--offline", "--workspace", "--no-fail-fast", "--", "--test-threads", "4"],
+                           cwd=work, capture_output=True, text=True, env=env)
+        if r.returncode in (124, 137):
+            return p, {"status": "tests-hang"}
         out = r.stdout + r.stderr
         failed = [l for l in out.splitlines() if l.startswith("test ") and l.endswith("FAILED")]
         if "error[" in out or "error: could not compile" in out:
